@@ -103,7 +103,7 @@ func (in *Interp) Tags() []string {
 	return out
 }
 
-func silent(reason string) { panic(refAbort{oSilent, reason}) }
+func silent(reason string)  { panic(refAbort{oSilent, reason}) }
 func rtError(reason string) { panic(refAbort{oError, reason}) }
 
 type ctrl int
@@ -634,6 +634,9 @@ func (in *Interp) arith(op string, l, r Value) Value {
 			}
 		}
 		in.tag("arith.pow." + t.String())
+		if b.BitLen() > 63 {
+			in.tag("pow.exp-ge-2p63." + t.String())
+		}
 		return wrap(t, p)
 	default:
 		panic("reference: unknown arithmetic operator " + op)
